@@ -72,6 +72,8 @@ def run(db, rep, feat, tier):
     r7(db, rep, vinfo)
     r2_r3_r6(db, rep)
     r4(db, rep)
+    r4b(db, rep)
+    r9(db, rep)
     r5(db, rep)
     r8(db, rep)
 
@@ -178,6 +180,14 @@ def r1(db, rep, variants, vinfo):
                     if boxed_pos != boxed[v]:
                         r.bad(key, db.where(b, a.line),
                               "operands of %s used in order %s, declared order is %s" % (v, boxed_pos, boxed[v]))
+                        continue
+                    # strict evaluation: no operand is evaluated conditionally (errors of every operand surface)
+                    cond_nodes = [x for x in walk(a.body) if x.get("k") in ("If", "Loop", "Closure")
+                                  or (x.get("k") == "Match" and x.get("src") != "Try")]
+                    if cond_nodes and kind == "evaluator":
+                        r.bad(key, db.where(b, cond_nodes[0]["l"]),
+                              "evaluation of %s is conditional: an operand (and its sort / division error) may be "
+                              "skipped" % v)
                         continue
                     # extension width operand must be passed through
                     if v in EXTENSIONS and 0 not in pos:
@@ -658,6 +668,77 @@ def in_range_side(cb, g, c, s, derived):
     true_means_in_range = op in ("Lt", "Le") if arg_left else op in ("Gt", "Ge")
     # Le / Ge admit amount == width: `<< width` is bounded and width - amount = 0, both harmless
     return s == (true_side if true_means_in_range else false_side)
+
+
+def r4b(db, rep):
+    r = rep.rule("R4b", "K9", "no Constant operator narrows an operand-derived integer (value, shift amount, width) "
+                 "with an `as` cast: a truncated amount loses saturation")
+    from mirterm import narrowing_casts, terms_of, bodies_under
+    cache = {}
+    n = 0
+    for fn in const_methods(db) + [CONST + "::zext", CONST + "::sext", CONST + "::trun", CONST + "::trim_value",
+                                   CONST + "::to_bigint"]:
+        if fn not in db.mir:
+            continue
+        for d in bodies_under(db, fn):
+            body = db.mir[d]
+            tm = terms_of(db, d, cache)
+            bad = []
+            for i, b in enumerate(body["blocks"]):
+                for s in b["s"]:
+                    rv = s.get("rv")
+                    if rv and rv["k"] == "Cast" and rv.get("ck", "").startswith("IntToInt"):
+                        t = tm.rvalue(rv, 10)
+                        if narrowing_casts(t)[:1] == [t] or (narrowing_casts(t) and t in narrowing_casts(t)):
+                            bad.append((s["l"], t))
+            n += 1
+            r.decide(not bad, "%s|narrowing" % d, db.where(body, bad[0][0] if bad else None),
+                     "narrowing integer cast %s" % (show(bad[0][1]) if bad else ""))
+    r.floor(17, "17 binary Constant methods")
+
+
+def r9(db, rep):
+    r = rep.rule("R9", "K9", "a 64-bit all-ones literal used as a constant of a non-literal width W (lib/il) is "
+                 "dominated by the true side of `W <= 64`: wider operands need a big-integer mask")
+    n = 0
+    for d, body in db.mir.items():
+        if not body["file"].endswith(("lib/il/expression.rs", "lib/il/constant.rs")):
+            continue
+        tm = None
+        cfg = None
+        k = 0
+        for i, t in mir_calls(body):
+            c = mir_callee(t)
+            if c not in ("il::expr_const", "il::const_", CONST + "::new") or len(t["args"]) != 2:
+                continue
+            v = op_const_int(t["args"][0])
+            if v != 0xFFFFFFFFFFFFFFFF:
+                continue
+            tm = tm or Terms(body, db)
+            cfg = cfg or Cfg(body)
+            w = tm.operand(t["args"][1])
+            key = "%s|allones|%d" % (d, k)
+            k += 1
+            n += 1
+            if w[0] == "const":
+                r.decide(w[1] <= 64, key, db.where(body, t["l"]), "all-ones u64 literal at literal width %d" % w[1])
+                continue
+            guarded = False
+            for j, b in enumerate(body["blocks"]):
+                tt = b["t"]
+                if tt["k"] != "SwitchInt":
+                    continue
+                cnd = tm.operand(tt["discr"])
+                if cnd[0] == "bin" and cnd[1] in ("Le", "Lt") and cnd[2] == w and cnd[3][0] == "const" and \
+                        (cnd[3][1] <= 64 if cnd[1] == "Le" else cnd[3][1] <= 65):
+                    tg = dict((vv, bb) for vv, bb in tt["targets"])
+                    true_side = tt["otherwise"]
+                    if tg.get(0) != true_side and cfg.dominates(true_side, i) and len(cfg.pred[true_side]) == 1:
+                        guarded = True
+            r.decide(guarded, key, db.where(body, t["l"]),
+                     "0xffff_ffff_ffff_ffff is used as the all-ones constant of width %s without a dominating "
+                     "`width <= 64` test (wrong mask above 64 bits)" % show(w))
+    r.floor(1, "the sign-fill mask in Expression::sra")
 
 
 # ------------------------------------------------------------------------------------ R5
